@@ -425,8 +425,10 @@ func (st *State) load(p Ptr) Value {
 		return getPath(o.Elems[0], p.Path)
 	}
 	if len(p.Path) == 0 {
-		if _, ok := o.Typ.Underlying().(*types.Struct); ok {
-			return append(Struct(nil), o.Elems...)
+		if o.Typ != nil {
+			if _, ok := o.Typ.Underlying().(*types.Struct); ok {
+				return append(Struct(nil), o.Elems...)
+			}
 		}
 		return append(Array(nil), o.Elems...)
 	}
